@@ -16,7 +16,8 @@ Reading of the property (what the oracle demands; chosen so that minimally repai
   is the empty list).
 * to_v1: the kind of the result is the version-1.0.0 counterpart of the input's kind (variants of
   deletion/insertion collapse to deletion/insertion, trill -> ornament, meta/info(score attribute) ->
-  scoreprop) and pitch, times, velocity, pedal values, anchors/ids are unchanged (tick times of
+  scoreprop; the words of a pre-1.0 tempo indication stay, in order, the blank-separated words of the 1.0.0 tempo
+  text) and pitch, times, velocity, pedal values, anchors/ids are unchanged (tick times of
   versions < 0.3.0, which are floats, are rounded to the nearest integer).  Info attributes with no
   1.0.0 counterpart may be rejected.
 * files (load_matchfile): a file of version V made of written lines is read as version V, every distinct
@@ -50,7 +51,8 @@ DRIVER = "drv_c07"
 PROPS = ["PartituraModel.Props.C07", "PartituraModel.Props.C07Codecs", "PartituraModel.Props.C07Lines",
          "PartituraModel.Props.C07Files", "PartituraModel.Props.C07Bound",
          "PartituraModel.Props.C07Hist", "PartituraModel.Props.C07Dispatch",
-         "PartituraModel.Props.C07ToV1", "PartituraModel.Props.C07Keys", "PartituraModel.Props.C07Validate"]
+         "PartituraModel.Props.C07ToV1", "PartituraModel.Props.C07Keys", "PartituraModel.Props.C07Validate",
+         "PartituraModel.Props.C07Alpha"]
 TRUSTED = [
     "Python `re` for the pattern sub-language of the match modules (literals, named groups over "
     "[^,] . [0-9,] [a-z,] [^)] with + or *): leftmost match, greedy quantifiers with backtracking - "
@@ -73,17 +75,30 @@ TRUSTED = [
     "classes keep no other state is exactly what the `hist` stream compares",
 ]
 PARTIAL = [
-    "line_roundtrip (every well-formed template, codec selected by the Attribute, pitch post-processing, line at an "
-    "offset), pitch_line_roundtrip (all 11 templates with pitch post-processing, every step x accidental x octave), "
-    "line_roundtrip_adm / pitch_line_roundtrip_adm (admissible values only, no round-trip hypothesis left) carry the "
-    "decidable side condition FieldsOKGen on the written texts (a field text must not contain the literal that "
-    "terminates it): it is a condition on the values, checked for every generated line by the comparison, not "
-    "derived from a character-level description of each codec's output",
+    "side condition on written texts: line_roundtrip / pitch_line_roundtrip / line_roundtrip_adm / "
+    "pitch_line_roundtrip_adm carry the decidable condition FieldsOKGen on the written texts (a field text must not "
+    "contain the literal that terminates it).  It is now DERIVED (Props/C07Alpha.lean) from the output alphabets of the "
+    "codecs (alpha_text: int, '%.kf', repr, identifier, identifier list, duration, version, time signature, quoted "
+    "text, the 30 keys / 900 double keys by kernel evaluation; note name and accidental tabulated over all steps and "
+    "accidentals) and kernel-decided checks of the generated templates (alpha_table_ok, pitch_alpha_ok, info_alpha_ok, "
+    "affix_alpha_ok) for 39 of the 43 templates: score notes and performed notes of all versions, pedal lines, trill "
+    "heads, section, info lines of all six versions and meta lines for every attribute of their tables "
+    "(line_roundtrip_values, pitch_line_roundtrip_values, info_line_roundtrip_values), and composed with the "
+    "composite-line theorems for all 32 deletion-like and insertion-like lines (deletion_roundtrip_values, "
+    "insertion_roundtrip_values, insertion_roundtrip_values_v1): there the only hypotheses are on the VALUES "
+    "(admissible for the codec, identifiers of letters, digits and _ . # + -, quoted text without line break).  NOT "
+    "derived, i.e. FieldsOKGen stays a condition checked on every generated line by the comparison: the 1.0.0 "
+    "scoreprop line (free-text Value followed by commas), stime and ptime (groups with a positive character class "
+    "[a-z,] / [0-9,]), the ornament head (the anchor may swallow the commas of the type list), and the FIRST component "
+    "of note pairs / trill / ornament / stime-ptime lines (the window of the attribute list runs into the second "
+    "component, a two-character literal would have to be tracked)",
     "composite lines: composite_pair / _pair0 / _suffix / _prefix give the round trip of all 45 generated composites "
     "from the component round trips and the STRUCTURAL check composites_struct_ok (kernel-decided for the whole "
     "table), under the value condition that no field text of the first component contains '(' and the fields the "
     "comma count walks over contain neither ',' nor ')' (identifiers without separators); lines violating it are "
-    "only compared",
+    "only compared.  For the 32 deletion-like / insertion-like lines the component round trips themselves are now "
+    "derived (see the first item), for the 13 two-component lines (note pair, trill, ornament, stime-ptime) the "
+    "component round trips stay hypotheses of composite_pair / _pair0",
     "floats: fixed_decimal_roundtrip (a k-decimal number with fewer than 2^52 units in the last place is written by "
     "'%.kf' as its own numeral and read back: the binary64 rounding step is proved to stay within relative error "
     "2^-53), fixed_decimal_fixpoint (any float: one formatting round, then a fixpoint), repr_roundtrip (the decimal "
@@ -109,7 +124,10 @@ PARTIAL = [
     "loadFileV_distinct; files with repeated ids are generated and compared",
     "to_v1: kind preservation and the content of every conversion are proved (toV1_pedal, _deletion, _snote_note, "
     "_insertion_content, _trill_content, _meta_content, _info_content, _info_signatures); for subtitle and "
-    "tempoIndication the VALUE changes by design (list of words -> one text) and its new form is compared only",
+    "tempoIndication the VALUE changes by design (list of words -> one text): toV1_tempo_words (the words joined by "
+    "single blanks, an admissible 1.0.0 tempo text, when that text has no comma, no blank at either end and no '[' in "
+    "front) and toV1_subtitle_words (the text Python prints for the list); word lists whose joined text violates these "
+    "conditions (the model takes the first comma-free run, as the code does) are compared, outside the theorem",
     "histories: history_write_independent / write_after_history / slot_stable hold in the model by construction (a "
     "functional heap); their content is the tie: the `hist` stream runs the same histories on the real classes",
 ]
@@ -133,7 +151,11 @@ LEVEL_TEXT = ("Lean 4 theorems about an executable model of template formatting 
               "decision on every run) parse(format x) = x and the formatting fixpoint hold for every field assignment "
               "that satisfies a decidable side condition - including lines whose value codec is chosen by the "
               "Attribute, lines with pitch post-processing (every step, accidental, octave) and composite lines, whose "
-              "'no early match' condition follows from a structural check of the generated composite table; every "
+              "'no early match' condition follows from a structural check of the generated composite table; for 39 of the 43 "
+              "line templates (score and performed notes, pedal, section, trill heads, info and meta lines with every "
+              "attribute) and all deletion-like and insertion-like composite lines that side condition is derived from "
+              "the output alphabets of the codecs and checks of the generated templates, so their round trip holds "
+              "for all admissible values with identifiers free of separators, with no condition on the written text; every "
               "codec of the field tables is a round trip on its admissible values (durations with tuplet divisor and "
               "additive components, time signatures, quoted strings, tempo, lists, versions, 30 keys x 4 spellings, key "
               "lists of any length); the bound of symbolic durations (bound_integers, binary64 arithmetic modelled "
@@ -1319,6 +1341,12 @@ def eval_tov1(ev, d, obj, tpl, flds, modelled):
     if kind in ("meta", "info") and nk == "scoreprop":
         if attr_of(obj) != "tempoIndication" and not values_equal(new.Value, obj.Value):
             bad.append("Value")
+        if attr_of(obj) == "tempoIndication" and isinstance(obj.Value, list) and len(obj.Value) > 0 \
+                and all(isinstance(w, str) and w and w.split() == [w] and "," not in w and "[" not in w
+                        for w in obj.Value):
+            # the words of a pre-1.0 tempo indication are kept, in order, as blank-separated text
+            if str(new.Value).split() != list(obj.Value):
+                bad.append("tempo words")
         if kind == "meta" and (new.Measure != obj.Measure or new.TimeInBeats != obj.TimeInBeats):
             bad.append("Measure/TimeInBeats")
     if kind == "info" and nk == "info":
